@@ -40,6 +40,83 @@ OPTIONS = [
 ]
 
 
+PAIR_ROWS_QUICK = ["explicit-padding", "flexarray-dst", "union-wrapper", "union-manuallydrop", "no-copy-debug", "target-1.64"]
+PAIR_ROWS_THOROUGH = PAIR_ROWS_QUICK + ["derives-all", "impl-debug", "namespaces", "use-core", "untagged-off", "alias-newtype"]
+LAYOUT_ATOMS = {"flex", "zla", "bfA", "bfB", "bfC", "anonu", "anons", "ldouble", "i128", "nestpk", "nestal", "arr3c"}
+
+
+def option_pairs(ck, recs, only=None, failed_default=()):
+    """Two deviations from the default configuration at once: every pair of the rows that change HOW a record is emitted, on the
+    records whose layout needs something beyond natural alignment (flexible / zero-length arrays, bit-field units, anonymous
+    members, over-aligned or packed members, record attributes). A failure already known under one of the two rows alone (or
+    under the default row) is attributed to that finding."""
+    import itertools as it
+    wd = os.path.join(ck.wd, "pairs")
+    rows = {o[0]: o for o in OPTIONS}
+    names = PAIR_ROWS_QUICK if ck.tier == "quick" else PAIR_ROWS_THOROUGH
+    allrecs = gen_c.enumerate_records(2)     # not the rotated quick selection: the pair rows always see the same family
+    fam = [c for c in allrecs if (set(c.atoms) & LAYOUT_ATOMS or c.rattr != "plain") and (len(c.atoms) == 1 or ck.tier == "thorough" or c.atoms[0] in ("char", "llong"))]
+    # three members: a trailing flexible / zero-length array or bit-field run that starts inside what would be tail padding
+    three = [c for c in gen_c.enumerate_records(3, atoms=["llong", "char", "short", "flex", "zla", "bfA"], rattrs=["plain", "packed", "al8"], kinds=("struct",))
+             if len(c.atoms) == 3 and c.atoms[2] in ("flex", "zla", "bfA") and c.atoms[0] in ("llong", "short") and c.atoms[1] in ("char", "short")]
+    for k, c in enumerate(three):
+        c.tag = f"K{len(allrecs) + 1 + k}"
+    fam += three
+    # like the single rows: a record that is already rejected under the default options is not re-tried under other rows
+    # (the family is first compiled under the default row; what fails there is reported under that row)
+    failed_default = set(failed_default)
+    if not only:
+        batches = [(f"p_default_{i // BATCH}", fam[i:i + BATCH]) for i in range(0, len(fam), BATCH)]
+        res, _ = probes.compile_batches(batches, os.path.join(wd, "default"), [], lang="c", contexts=True, edition="2021", prelude="#![allow(warnings)]\n")
+        for c in fam:
+            msgs = res.get(c.tag)
+            if msgs:
+                failed_default.add(c.cid)
+                sig = signature(msgs)
+                ck.violation(f"{c.cid} opt=default rustc-rejects {sig}", {"cid": c.cid, "opt": "default", "predicate": f"{sig}|{structure_class(c)}|default",
+                                                                           "source": c.source(), "why": " | ".join(msgs)[:600]})
+    fam = [c for c in fam if c.cid not in failed_default]
+    if only:
+        fam = [c for c in fam if c.cid == only.get("cid")]
+    npairs = 0
+    for a, b in it.combinations(names, 2):
+        oname = f"{a}+{b}"
+        if only and only.get("opt") != oname:
+            continue
+        if {a, b} == {"union-wrapper", "union-manuallydrop"}:
+            continue   # two values of one option
+        npairs += 1
+        flags = rows[a][1] + [f for f in rows[b][1] if f not in rows[a][1]]
+        batches = [(f"p_{oname.replace('.', '_').replace('+', '_')}_{i // BATCH}", fam[i:i + BATCH]) for i in range(0, len(fam), BATCH)]
+        res, _ = probes.compile_batches(batches, os.path.join(wd, oname.replace(".", "_").replace("+", "_")), flags, lang="c", contexts=True,
+                                        edition="2021", prelude="#![allow(warnings)]\n")
+        for c in fam:
+            ck.count()
+            ck.nontriv((c.cid, oname))
+            msgs = res.get(c.tag)
+            if not msgs:
+                continue
+            sig = signature(msgs)
+            cls = structure_class(c)
+            det = {"cid": c.cid, "opt": oname, "pair": True, "source": c.source(), "why": " | ".join(msgs)[:600]}
+            pred = f"{sig}|{cls}|{oname}"
+            # error codes already recorded for this structural class under one of the two rows alone (or the default row)
+            known_codes, first = set(), None
+            for rec in ck.findings:
+                for kp in list(rec.get("predicates", ())) + ([rec["predicate"]] if rec.get("predicate") else []):
+                    parts = kp.split("|")
+                    if len(parts) == 3 and parts[1] == cls and parts[2] in (a, b, "default"):
+                        known_codes |= set(parts[0].split(","))
+                        if first is None and set(parts[0].split(",")) & set(sig.split(",")):
+                            first = kp
+            if first and set(sig.split(",")) <= known_codes:
+                pred = first
+            det["predicate"] = pred
+            ck.violation(f"{c.cid} opt={oname} rustc-rejects {sig}", det)
+    ck.extra["option_pair_rows"] = npairs
+    ck.extra["option_pair_records"] = len(fam)
+
+
 class CxxCase:
     def __init__(self, tag, src, cid):
         self.tag, self._src, self.cid = tag, src, cid
@@ -230,6 +307,8 @@ def run(ck, only=None):
                     ck.violation(f"{c.cid} opt={oname} rustc-rejects {sig}",
                                  {"cid": c.cid, "opt": oname, "predicate": f"{sig}|{structure_class(c)}|{oname}", "source": c.source(),
                                   "why": " | ".join(msgs)[:600]})
+    if not only or only.get("pair"):
+        option_pairs(ck, recs, only, failed_default)
     ck.sample({"record": fam_c[len(fam_c) // 2].cid if fam_c else None, "cxx": fam_cpp[3].cid if len(fam_cpp) > 3 else None})
     if (not only or only.get("header")) and not os.environ.get("VERIF_C01_SHAPES_ONLY"):
         repo_headers(ck, only)
